@@ -28,7 +28,7 @@ theorem Pc.quiet_facts {pc : Pc} (h : pc.quiet = true) :
   cases pc <;> simp_all
 
 theorem inv_wake2 {s s' : Sys} {sd : Side} (inv : Inv s) (h : step pinned s (.wake2 sd) = some s') :
-    s'.fail = some .useAfterFree ∨ Inv s' := by
+    s' = { s with fail := some .useAfterFree } ∨ Inv s' := by
   have nf := inv.nofail
   simp only [step, nf, Option.isSome_none, Bool.false_eq_true, if_false, pinned] at h
   cases sd
@@ -37,7 +37,7 @@ theorem inv_wake2 {s s' : Sys} {sd : Side} (inv : Inv s) (h : step pinned s (.wa
     case h_2 => simp at h
     rename_i w hpc
     split at h
-    · left; simp [failWith] at h; rw [← h]
+    · left; simp only [failWith, Option.some.injEq] at h; exact h.symm
     right
     simp only [Option.some.injEq] at h; subst h
     cases w
@@ -52,7 +52,7 @@ theorem inv_wake2 {s s' : Sys} {sd : Side} (inv : Inv s) (h : step pinned s (.wa
     case h_2 => simp at h
     rename_i w hpc
     split at h
-    · left; simp [failWith] at h; rw [← h]
+    · left; simp only [failWith, Option.some.injEq] at h; exact h.symm
     right
     simp only [Option.some.injEq] at h; subst h
     cases w
@@ -64,7 +64,7 @@ theorem inv_wake2 {s s' : Sys} {sd : Side} (inv : Inv s) (h : step pinned s (.wa
       inv_pc inv
 
 theorem inv_swap_sender {s s' : Sys} (inv : Inv s) (h : step pinned s (.swap .sender) = some s') :
-    s'.fail = some .useAfterFree ∨ Inv s' := by
+    s' = { s with fail := some .useAfterFree } ∨ Inv s' := by
   have nf := inv.nofail
   simp only [step, nf, Option.isSome_none, Bool.false_eq_true, if_false, pinned, Sys.loc, Sys.view,
     Sys.setLoc, Sys.setView, closeTag] at h
@@ -72,7 +72,7 @@ theorem inv_swap_sender {s s' : Sys} (inv : Inv s) (h : step pinned s (.swap .se
   case h_2 => simp at h
   rename_i hpc
   split at h
-  · left; simp [failWith] at h; rw [← h]
+  · left; simp only [failWith, Option.some.injEq] at h; exact h.symm
   split at h
   · simp at h
   rename_i last mem V hrmw
@@ -186,7 +186,7 @@ theorem inv_swap_sender {s s' : Sys} (inv : Inv s) (h : step pinned s (.swap .se
     inv_pc i1
 
 theorem inv_swap_receiver {s s' : Sys} (inv : Inv s) (h : step pinned s (.swap .receiver) = some s') :
-    s'.fail = some .useAfterFree ∨ Inv s' := by
+    s' = { s with fail := some .useAfterFree } ∨ Inv s' := by
   have nf := inv.nofail
   simp only [step, nf, Option.isSome_none, Bool.false_eq_true, if_false, pinned, Sys.loc, Sys.view,
     Sys.setLoc, Sys.setView, closeTag] at h
@@ -194,7 +194,7 @@ theorem inv_swap_receiver {s s' : Sys} (inv : Inv s) (h : step pinned s (.swap .
   case h_2 => simp at h
   rename_i hpc
   split at h
-  · left; simp [failWith] at h; rw [← h]
+  · left; simp only [failWith, Option.some.injEq] at h; exact h.symm
   split at h
   · simp at h
   rename_i last mem V hrmw
